@@ -4,7 +4,10 @@ C20  Fallible entry points return errors, never abort; date arithmetic is total.
 In the model every place where the implementation can panic is an explicit `Outcome.panic` marker
 (`lag`'s `.unwrap()`, `get_roll_by_day`'s `panic!`, `add_months`'s `get_roll(..).unwrap()`), the
 loops carry fuel (`none` = still searching after `fuel` days; C04/C05 show a result exists whenever a
-business day lies within reach), and every validating constructor / loader returns `Option`/`Except`.
+business day lies within reach — and one always does: `C20_adjust_terminates`, `C20_cal_adjust_terminates`,
+`C20_union_adjust_terminates` give the explicit fuel bound "distance to the span of the holidays + 8 days" for
+every calendar with a working weekday, resp. every combination whose parts share one, so the real loops,
+which carry no fuel, terminate), and every validating constructor / loader returns `Option`/`Except`.
 The theorems say: the panic markers are unreachable for every argument in the documented ranges, and
 every value that IS returned satisfies its type's shape invariants.  That the implementation has no
 further panic sites than the model is what the correspondence run checks (every call under
@@ -103,6 +106,98 @@ theorem C20_adjust_total (fuel : Nat) (d e1 e2 : Int) (m : Modifier) (s : Bool)
     (h3 : e2 ≤ d) (h4 : d - fuel < e2) (he2 : c.Elig true e2) :
     ∃ r, c.roll fuel d m s = some r :=
   C04_total c fuel d e1 e2 m s h1 h2 he1 h3 h4 he2
+
+/-! ### eligible days exist: the adjustment loops terminate -/
+
+/-- the first day on or after `x` whose weekday is `w` -/
+def nextWeekday (x w : Int) : Int := x + (w - weekday x) % 7
+/-- the last day on or before `x` whose weekday is `w` -/
+def prevWeekday (x w : Int) : Int := x - (weekday x - w) % 7
+
+theorem nextWeekday_spec (x w : Int) (hw : 0 ≤ w ∧ w < 7) :
+    x ≤ nextWeekday x w ∧ nextWeekday x w < x + 7 ∧ weekday (nextWeekday x w) = w := by
+  unfold nextWeekday weekday
+  omega
+
+theorem prevWeekday_spec (x w : Int) (hw : 0 ≤ w ∧ w < 7) :
+    prevWeekday x w ≤ x ∧ x - 7 < prevWeekday x w ∧ weekday (prevWeekday x w) = w := by
+  unfold prevWeekday weekday
+  omega
+
+/-- TERMINATION OF EVERY ADJUSTMENT, for any date-roll object that has a working weekday `w` on which,
+outside a bounded range `[lo, hi]` (the span of its holidays), every date is a business day and a settlement
+day: whatever the date, modifier and settlement flag, the adjustment returns a date as soon as the fuel
+covers the distance to that range plus eight days — the real loops, which carry no fuel, terminate. -/
+theorem C20_adjust_terminates (w : Int) (hw : 0 ≤ w ∧ w < 7) (lo hi : Int)
+    (H : ∀ e, weekday e = w → (e < lo ∨ hi < e) → c.isBus e = true ∧ c.isSettlement e = true)
+    (d : Int) (m : Modifier) (s : Bool) (fuel : Nat)
+    (hf : max (max (hi - d) (d - lo)) 0 + 8 < fuel) :
+    ∃ r, c.roll fuel d m s = some r := by
+  obtain ⟨a1, a2, a3⟩ := nextWeekday_spec (max d (hi + 1)) w hw
+  obtain ⟨b1, b2, b3⟩ := prevWeekday_spec (min d (lo - 1)) w hw
+  have he1 := H _ a3 (Or.inr (by omega))
+  have he2 := H _ b3 (Or.inl (by omega))
+  exact C20_adjust_total c fuel d _ _ m s (by omega) (by omega) ⟨he1.1, fun _ => he1.2⟩
+    (by omega) (by omega) ⟨he2.1, fun _ => he2.2⟩
+
+/-- …in particular for every plain calendar with at least one working weekday and holidays in a bounded
+range (every `Cal`: its holiday set is finite). -/
+theorem C20_cal_adjust_terminates (cal : Cal) (w : Int) (hw : 0 ≤ w ∧ w < 7) (hmask : cal.mask w = false)
+    (lo hi : Int) (hb : ∀ e, cal.hol e = true → lo ≤ e ∧ e ≤ hi)
+    (d : Int) (m : Modifier) (s : Bool) (fuel : Nat) (hf : max (max (hi - d) (d - lo)) 0 + 8 < fuel) :
+    ∃ r, cal.toDR.roll fuel d m s = some r := by
+  apply C20_adjust_terminates cal.toDR w hw lo hi _ d m s fuel hf
+  intro e he hout
+  refine ⟨?_, rfl⟩
+  show (!cal.mask (weekday e) && !cal.hol e) = true
+  rw [he, hmask]
+  cases hh : cal.hol e with
+  | false => rfl
+  | true => have := hb e hh; omega
+
+/-- …and for every combined calendar whose members and settlement calendars share a working weekday (a
+combination without a common working weekday has no business day at all: the real loops then run to
+chrono's overflow panic — the excluded point). -/
+theorem C20_union_adjust_terminates (u : UnionCal) (w : Int) (hw : 0 ≤ w ∧ w < 7)
+    (hmask : ∀ cal ∈ u.calendars, cal.mask w = false)
+    (hmaskS : ∀ v, u.settlement = some v → ∀ cal ∈ v, cal.mask w = false)
+    (lo hi : Int) (hb : ∀ cal ∈ u.calendars, ∀ e, cal.hol e = true → lo ≤ e ∧ e ≤ hi)
+    (hbS : ∀ v, u.settlement = some v → ∀ cal ∈ v, ∀ e, cal.hol e = true → lo ≤ e ∧ e ≤ hi)
+    (d : Int) (m : Modifier) (s : Bool) (fuel : Nat) (hf : max (max (hi - d) (d - lo)) 0 + 8 < fuel) :
+    ∃ r, u.toDR.roll fuel d m s = some r := by
+  apply C20_adjust_terminates u.toDR w hw lo hi _ d m s fuel hf
+  intro e he hout
+  have hnohol : ∀ cal : Cal, (∀ x, cal.hol x = true → lo ≤ x ∧ x ≤ hi) → cal.hol e = false := by
+    intro cal hc
+    cases hh : cal.hol e with
+    | false => rfl
+    | true => have := hc e hh; omega
+  constructor
+  · show (u.calendars.all (fun c => c.toDR.isWeekday e) && !u.calendars.any (fun c => c.toDR.isHoliday e)) = true
+    have h1 : u.calendars.all (fun c => c.toDR.isWeekday e) = true := by
+      rw [List.all_eq_true]
+      intro cal hc
+      show (!cal.mask (weekday e)) = true
+      rw [he, hmask cal hc]; rfl
+    have h2 : u.calendars.any (fun c => c.toDR.isHoliday e) = false := by
+      rw [List.any_eq_false]
+      intro cal hc
+      show ¬ cal.hol e = true
+      rw [hnohol cal (hb cal hc)]; simp
+    rw [h1, h2]; rfl
+  · show (match u.settlement with
+      | none => true
+      | some v => !v.any (fun c => c.toDR.isNonBus e)) = true
+    cases hsv : u.settlement with
+    | none => rfl
+    | some v =>
+      simp only
+      have : v.any (fun c => c.toDR.isNonBus e) = false := by
+        rw [List.any_eq_false]
+        intro cal hc
+        show ¬ (!(!cal.mask (weekday e) && !cal.hol e)) = true
+        rw [he, hmaskS v hsv cal hc, hnohol cal (hbS v hsv cal hc)]; simp
+      rw [this]; rfl
 
 end Dates
 /-! ### validating constructors -/
